@@ -386,9 +386,21 @@ def run_shard(spec, rec):
             cfg = {'default_version': spec['dv'], 'default_level': spec['dl'],
                    'default_ec': 'standard' if dec is None else 'exotic' if dec is EXOTIC else 'exotic-with-truncation'}
             differs = spec['dv'] != base_defaults[0] or spec['dl'] != base_defaults[1] or dec is not None
-            hl7apy.set_default_version(spec['dv'])
-            hl7apy.set_default_validation_level(spec['dl'])
-            hl7apy.set_default_encoding_chars(dict(dec) if dec else dict(base_defaults[2]))
+            want_ec = dict(dec) if dec else dict(base_defaults[2])
+            setters = [('version', lambda: hl7apy.set_default_version(spec['dv'])),
+                       ('level', lambda: hl7apy.set_default_validation_level(spec['dl'])),
+                       ('encoding-chars', lambda: hl7apy.set_default_encoding_chars(dict(want_ec)))]
+            k0 = (None, EXOTIC, EXOTIC_T).index(dec)
+            setters = setters[k0:] + setters[:k0]        # the three settings are independent: any order of setting them
+            for _, fn in setters:
+                fn()
+            got = (hl7apy.get_default_version(), hl7apy.get_default_validation_level(),
+                   {k: x for k, x in hl7apy.get_default_encoding_chars().items() if k in want_ec})
+            rec.count('default_setters_read_back')
+            if got != (spec['dv'], spec['dl'], want_ec):
+                rec.violation('setting-one-default-changed-another', {'label': 'setters', 'config': cfg},
+                              {'order': [n for n, _ in setters], 'read_back': str(got)[:200],
+                               'set': str((spec['dv'], spec['dl'], want_ec))[:200]})
             try:
                 for (label, thunk), b in zip(calls, base):
                     rec.evaluation((label, spec['dv'], spec['dl'], bool(dec)), nontrivial=differs)
